@@ -474,7 +474,8 @@ class Program:
                 st.extend(preds[x])
             f.doomed = {bid for bid in live if bid not in can}
 
-    ALLOCATORS = {"malloc", "calloc", "realloc", "ILLutil_allocrus", "ILLutil_reallocrus", "strdup"}
+    ALLOCATORS = {"malloc", "calloc", "realloc", "ILLutil_allocrus", "ILLutil_reallocrus", "strdup",
+                  "ILLutil_str"}      # ILLutil_str(s) with s != NULL returns NULL only when malloc fails
 
     def fault_edges(self, f):
         """allocation-failure edges (DESIGN 2.3): the NULL edge of a test of a location that was assigned from an allocator
